@@ -1,7 +1,7 @@
 (* Properties/C19.v : Peers settle on the highest common protocol version and frame data accordingly.
    Only statements, closed by lemmas of Proofs/Versions.v, each followed by Print Assumptions.
    Version values are N here; the code's uint8 range plays no role in any statement. *)
-From Shisui Require Import Base.Bytes Model.Framing Proofs.Framing Model.Versions Proofs.Versions.
+From Shisui Require Import Base.Bytes Model.Framing Proofs.Framing Proofs.FramingExtra Model.Versions Proofs.Versions.
 From Shisui Require Import Gen.K_wire.
 
 (* findBiggestSameNumber succeeds with m  iff  m is the maximum of the intersection of the two advertised sets *)
@@ -143,6 +143,18 @@ Theorem C19_history_republished_record : forall own id s1 s2 old new,
   [negotiate own old; negotiate own new].
 Proof. exact history_republished_record. Qed.
 Print Assumptions C19_history_republished_record.
+
+(* why both sides must derive the SAME version: a single-item uTP stream framed under one version and unframed under
+   the other never yields the sent bytes - it is either rejected or altered (1..5 bytes more, or at least one fewer) *)
+Theorem C19_framing_mismatch_never_delivers : forall vs vr d,
+  (vs =? 1) <> (vr =? 1) -> decode_utp_content vr (encode_utp_content vs d) <> Ok d.
+Proof. exact utp_version_mismatch_never_right. Qed.
+Print Assumptions C19_framing_mismatch_never_delivers.
+
+Theorem C19_framing_match_delivers : forall vs vr d,
+  (vs =? 1) = (vr =? 1) -> short d -> decode_utp_content vr (encode_utp_content vs d) = Ok d.
+Proof. exact utp_same_version_right. Qed.
+Print Assumptions C19_framing_match_delivers.
 
 Example C19_nonvacuous :
   find_biggest_same [0; 1] [1; 2; 0] = (1, None) /\
